@@ -90,6 +90,11 @@ Definition expected_user_PublicKey_Verify_text : list string :=
    "if err != nil { return false }";
    "return VerifySignature(encoded, p.Signature)"].
 
+(* yggdrasil/user: PublicKey.VerifyMessage *)
+Definition expected_user_PublicKey_VerifyMessage_text : list string :=
+  ["func(hash, signature []byte) error recv *PublicKey";
+   "return rsa.VerifyPKCS1v15(p.PubKey, crypto.SHA256, hash, signature)"].
+
 (* server/auth: encryptionResponse *)
 Definition expected_auth_encryptionResponse_text : list string :=
   ["func(conn *net.Conn, serverKey *rsa.PrivateKey, verifyToken []byte) ([]byte, error)";
@@ -106,6 +111,11 @@ Definition expected_auth_encryptionResponse_text : list string :=
    "sharedSecret, err := rsa.DecryptPKCS1v15(rand.Reader, serverKey, keyBytes)";
    "if err != nil { return nil, err }";
    "return sharedSecret, nil"].
+
+(* server/auth: encryptionRequest *)
+Definition expected_auth_encryptionRequest_text : list string :=
+  ["func(conn *net.Conn, publicKey, verifyToken []byte) error";
+   "return conn.WritePacket(pk.Marshal( packetid.ClientboundLoginHello, pk.String(""""), pk.ByteArray(publicKey), pk.ByteArray(verifyToken), ))"].
 
 (* server/auth: Encrypt *)
 Definition expected_auth_Encrypt_text : list string :=
@@ -127,10 +137,16 @@ Definition expected_auth_Encrypt_text : list string :=
    "if err != nil { return nil, errors.New(""auth servers down"") }";
    "return resp, nil"].
 
-(* server/auth: encryptionRequest *)
-Definition expected_auth_encryptionRequest_text : list string :=
-  ["func(conn *net.Conn, publicKey, verifyToken []byte) error";
-   "return conn.WritePacket(pk.Marshal( packetid.ClientboundLoginHello, pk.String(""""), pk.ByteArray(publicKey), pk.ByteArray(verifyToken), ))"].
+(* bot: newSymmetricEncryption *)
+Definition expected_bot_newSymmetricEncryption_text : list string :=
+  ["func() (key []byte, encoStream, decoStream cipher.Stream)";
+   "key = make([]byte, 16)";
+   "if _, err := rand.Read(key); err != nil { panic(err) }";
+   "b, err := aes.NewCipher(key)";
+   "if err != nil { panic(err) }";
+   "decoStream = CFB8.NewCFB8Decrypt(b, key)";
+   "encoStream = CFB8.NewCFB8Encrypt(b, key)";
+   "return"].
 
 (* bot: genEncryptionKeyResponse *)
 Definition expected_bot_genEncryptionKeyResponse_text : list string :=
@@ -143,17 +159,6 @@ Definition expected_bot_genEncryptionKeyResponse_text : list string :=
    "verifyT, err := rsa.EncryptPKCS1v15(rand.Reader, rsaKey, verifyToken)";
    "if err != nil { err = fmt.Errorf(""encryption verfy tokenfail: %v"", err) return erp, err }";
    "return pk.Marshal( packetid.ServerboundLoginKey, pk.ByteArray(cryptPK), pk.ByteArray(verifyT), ), nil"].
-
-(* bot: newSymmetricEncryption *)
-Definition expected_bot_newSymmetricEncryption_text : list string :=
-  ["func() (key []byte, encoStream, decoStream cipher.Stream)";
-   "key = make([]byte, 16)";
-   "if _, err := rand.Read(key); err != nil { panic(err) }";
-   "b, err := aes.NewCipher(key)";
-   "if err != nil { panic(err) }";
-   "decoStream = CFB8.NewCFB8Decrypt(b, key)";
-   "encoStream = CFB8.NewCFB8Encrypt(b, key)";
-   "return"].
 
 (* bot: loginAuth *)
 Definition expected_bot_loginAuth_text : list string :=
@@ -171,6 +176,21 @@ Definition expected_bot_loginAuth_text : list string :=
    "defer resp.Body.Close()";
    "body, _ := io.ReadAll(resp.Body)";
    "if resp.StatusCode != http.StatusNoContent { return fmt.Errorf(""auth fail: %s"", string(body)) }";
+   "return nil"].
+
+(* bot: handleEncryptionRequest *)
+Definition expected_bot_handleEncryptionRequest_text : list string :=
+  ["func(conn *net.Conn, c *Client, p pk.Packet) error";
+   "key, encoStream, decoStream := newSymmetricEncryption()";
+   "var er encryptionRequest";
+   "if err := p.Scan(&er); err != nil { return err }";
+   "err := loginAuth(c.Auth, key, er)";
+   "if err != nil { return fmt.Errorf(""login fail: %v"", err) }";
+   "p, err = genEncryptionKeyResponse(key, er.PublicKey, er.VerifyToken)";
+   "if err != nil { return fmt.Errorf(""gen encryption key response fail: %v"", err) }";
+   "err = conn.WritePacket(p)";
+   "if err != nil { return err }";
+   "conn.SetCipher(encoStream, decoStream)";
    "return nil"].
 
 (* yggdrasil/user: PublicKey.WriteTo *)
@@ -192,11 +212,6 @@ Definition expected_user_PublicKey_ReadFrom_text : list string :=
    "if key, ok := pubKey.( *rsa.PublicKey); !ok { return n, errors.New(""expect RSA public key"") } else { p.PubKey = key }";
    "p.Signature = Signature";
    "return n, nil"].
-
-(* yggdrasil/user: PublicKey.VerifyMessage *)
-Definition expected_user_PublicKey_VerifyMessage_text : list string :=
-  ["func(hash, signature []byte) error recv *PublicKey";
-   "return rsa.VerifyPKCS1v15(p.PubKey, crypto.SHA256, hash, signature)"].
 
 (* yggdrasil/user: Property.WriteTo *)
 Definition expected_user_Property_WriteTo_text : list string :=
